@@ -746,6 +746,14 @@ def run(prop, tier):
     ntok, nreg = part_tokens(res, tier, cov)
     lstats, lsamples = part_lines(res, tier, cov)
     wstats, wsamples = part_nowrite(res, tier, cov)
+    # >>> WP1 layer P: translated productions vs the real ones (coverage["layerP"])
+    try:
+        import props_prog
+
+        props_prog.extra(res, tier)
+    except ImportError:
+        pass
+    # <<< WP1 layer P
     res.coverage.update(cov)
     res.coverage.update(
         {
